@@ -164,42 +164,44 @@ Definition finish_parsing_body_block_body (ident : ptok) : M (pitem * diags) :=
 End bodies.
 
 (* ---- the knot --------------------------------------------------------------------------------- *)
-Fixpoint block_labels_loop (fuel : nat) (labels : list (list Z)) (ds : diags)
-  : M ((list (list Z) * diags) + (list (list Z) * diags)) :=
+(* (explicit state, callees as partial applications: see ExprParser.v) *)
+Fixpoint block_labels_loop (fuel : nat) (labels : list (list Z)) (ds : diags) (s : pstate) {struct fuel}
+  : res ((list (list Z) * diags) + (list (list Z) * diags)) :=
   match fuel with
-  | O => out_of_fuel
-  | S f => block_labels_loop_body f (block_labels_loop f) labels ds
+  | O => OutOfFuel
+  | S f => block_labels_loop_body f (block_labels_loop f) labels ds s
   end.
 
-Definition finish_parsing_body_attribute (fuel : nat) (ident : ptok) (single_line : bool) : M (pitem * diags) :=
+Definition finish_parsing_body_attribute (fuel : nat) (ident : ptok) (single_line : bool) (s : pstate)
+  : res (pitem * diags) :=
   match fuel with
-  | O => out_of_fuel
-  | S f => finish_parsing_body_attribute_body f (parse_expression f) ident single_line
+  | O => OutOfFuel
+  | S f => finish_parsing_body_attribute_body f (parse_expression f) ident single_line s
   end.
 
-Definition parse_single_attr_body (fuel : nat) (end_ : Z) : M (option pbody * diags) :=
+Definition parse_single_attr_body (fuel : nat) (end_ : Z) (s : pstate) : res (option pbody * diags) :=
   match fuel with
-  | O => out_of_fuel
-  | S f => parse_single_attr_body_body f (finish_parsing_body_attribute f) end_
+  | O => OutOfFuel
+  | S f => parse_single_attr_body_body f (finish_parsing_body_attribute f) end_ s
   end.
 
 Fixpoint body_loop (fuel : nat) (end_ : Z) (items : list pitem) (names : list (list Z)) (ds : diags)
-  : M (pbody * diags) :=
+         (s : pstate) {struct fuel} : res (pbody * diags) :=
   match fuel with
-  | O => out_of_fuel
-  | S f => body_loop_body f (parse_body_item f) (body_loop f) end_ items names ds
+  | O => OutOfFuel
+  | S f => body_loop_body f (parse_body_item f) (body_loop f) end_ items names ds s
   end
-with parse_body_item (fuel : nat) : M (option pitem * diags) :=
+with parse_body_item (fuel : nat) (s : pstate) {struct fuel} : res (option pitem * diags) :=
   match fuel with
-  | O => out_of_fuel
-  | S f => parse_body_item_body f (finish_parsing_body_attribute f) (finish_parsing_body_block f)
+  | O => OutOfFuel
+  | S f => parse_body_item_body f (finish_parsing_body_attribute f) (finish_parsing_body_block f) s
   end
-with finish_parsing_body_block (fuel : nat) (ident : ptok) : M (pitem * diags) :=
+with finish_parsing_body_block (fuel : nat) (ident : ptok) (s : pstate) {struct fuel} : res (pitem * diags) :=
   match fuel with
-  | O => out_of_fuel
+  | O => OutOfFuel
   | S f =>
       finish_parsing_body_block_body f (fun e => body_loop f e [] [] []) (parse_single_attr_body f)
-        (block_labels_loop f) ident
+        (block_labels_loop f) ident s
   end.
 
 (* ParseBody(end) *)
